@@ -531,7 +531,8 @@ def requirements_of_nodes(nodes) -> list[tuple[str, int]]:
 
 
 def expected_imports(prog) -> dict[str, int]:
-    return policy(requirements_of_nodes(prog["nodes"]) + [("", 14)])
+    extra = [tuple(r) for r in prog.get("with_opset", [])]
+    return policy(requirements_of_nodes(prog["nodes"]) + [("", 14)] + extra)
 
 
 def walk(nodes, depth=0, in_func=False, path=()):
@@ -796,6 +797,8 @@ class Gen:
             else:
                 outs.append(o)
         prog = sink(prune({"nodes": nodes, "outs": outs}))
+        if self.rng.random() < 0.12:
+            prog["with_opset"] = [[self.rng.choice(["ai.onnx", "ai.onnx", ""]), self.rng.randrange(13, 22)]]
         if self.clean:
             align_unknown_rank(prog)
         return prog
@@ -867,7 +870,7 @@ def prune(prog):
         kept.reverse()
         return kept
 
-    return {"nodes": prune_nodes(prog["nodes"], set(prog["outs"])), "outs": list(prog["outs"])}
+    return dict(prog, nodes=prune_nodes(prog["nodes"], set(prog["outs"])), outs=list(prog["outs"]))
 
 
 def _refs(blk, sid) -> bool:
